@@ -1,13 +1,18 @@
 (* C06 — indexing by item labels reads and writes exactly the addressed entries.  Statements only.
-   PARTIAL: proved are the pointwise characterisation of the numpy index model that the handler
-   feeds (every entry of the result is the source entry the rule assigns), the refusals, and (C05)
-   the frame of writes.  The label-level statement "lden (a[k]) l' = lden a (extend k l')" for every
-   combination of selector kinds in every position is decided per configuration by the exhaustive
-   correspondence (all selector-kind assignments up to rank 3 / 4) together with the oracle; the
-   behaviour before the repair is refuted in Refuted/C06.v. *)
+   Reads: the label-level statement is proved for every array, every well-formed dict key (any number of
+   addressed dimensions, single items and subset Dimensions in any combination, position and order) and every
+   label assignment (C06_dict_read_by_label), on top of the theorem that the index tuple the handler builds makes
+   numpy select orthogonally (C06_index_tuple_selects_orthogonally: plain slices / one list, or the open mesh as
+   soon as a list meets another list or an integer — numpy's "advanced indices that are not adjacent move to the
+   front" rule is part of the numpy model and is exactly what the mesh conversion neutralises).  The behaviour
+   before the repair is refuted in Refuted/C06.v.  Tuple / bare-item keys are turned into dict keys by def_dict
+   (covered by the exhaustive correspondence and the refusal theorems).  Writes: frame, dims/size preservation
+   (C05) and refusals; the label-level statement for writes is decided per configuration by the exhaustive
+   correspondence (all selector-kind assignments up to rank 3 / 4) and the oracle. *)
 From Coq Require Import List Arith.
 Import ListNotations.
-From Flodym Require Import Base.ND Base.Env Np.Einsum Np.Index Model.Dims Model.Array Model.SubArray Proofs.IndexProofs.
+From Flodym Require Import Base.ND Base.Env Np.Einsum Np.Index Model.Dims Model.Array Model.SubArray
+  Proofs.ArrayLemmas Proofs.IndexProofs Proofs.OrthoIndex Proofs.HandlerProofs Proofs.GetitemSpec.
 
 Theorem C06_read_entries_are_the_addressed_source_entries :
   forall (R : Type) (rO : R) (a : nd R) sels p idx,
@@ -36,3 +41,58 @@ Theorem C06_list_selectors_are_for_writes_only :
   mk_handler_of (adims a) k = Ok h -> h_invalid h = true -> getitem R rO a k = Err.
 Proof. exact list_selector_refused_in_reads. Qed.
 Print Assumptions C06_list_selectors_are_for_writes_only.
+
+(* what SubArrayHandler asks numpy for, per axis: slice(None) | an integer | a list of integers *)
+Theorem C06_index_tuple_selects_orthogonally :
+  forall (R : Type) (rO : R) (a : nd R) (raw : list rawid),
+  length raw = length (shp a) -> Forall2 (fun r m => raw_ok r m = true) raw (shp a) ->
+  exists v, index R rO a (to_sels raw (shp a)) = Ok v /\ shp v = out_shape raw (shp a)
+            /\ length (dat v) = size (shp v)
+            /\ forall idx, Forall2 lt idx (out_shape raw (shp a)) ->
+                 get rO (shp v) (dat v) idx = get rO (shp a) (dat a) (pull raw idx).
+Proof. exact index_orthogonal. Qed.
+Print Assumptions C06_index_tuple_selects_orthogonally.
+
+(* the handler of a dict key: per dimension kept / dropped / replaced, whatever the order of the entries *)
+Theorem C06_handler_acts_per_dimension :
+  forall ds kvs, NoDup (letters ds) -> wf_dict ds no_asg kvs ->
+  mk_handler_of ds (KDict kvs)
+  = Ok (mk_handler (flat_map (out_for (asg_of no_asg kvs)) ds)
+                   (to_sels (map (sel_for (asg_of no_asg kvs)) ds) (dshape ds))
+                   (existsb (fun p => match snd p with IList _ => true | _ => false end) kvs)).
+Proof. exact mk_handler_dict. Qed.
+Print Assumptions C06_handler_acts_per_dimension.
+
+(* reads by label *)
+Theorem C06_dict_read_by_label :
+  forall (R : Type) (rO : R) (a : farr R) kvs,
+  wf R a -> wf_dict (adims a) no_asg kvs ->
+  existsb (fun p => match snd p with IList _ => true | _ => false end) kvs = false ->
+  no_lists (asg_of no_asg kvs) (adims a) ->
+  let F := asg_of no_asg kvs in
+  exists r, getitem R rO a (KDict kvs) = Ok r
+    /\ adims r = flat_map (out_for F) (adims a)
+    /\ forall e, (forall d, In d (adims r) -> lookup e (dletter d) < dlen d) ->
+          den R rO r e = den R rO a (src_env F (adims a) e).
+Proof. exact getitem_dict_spec. Qed.
+Print Assumptions C06_dict_read_by_label.
+
+(* non-vacuity: a (t, r, m) array read with {m: subset in another order, t: single item}: the premises hold and
+   the entry under (r = 1, s = 0) is the source entry (t = 1, r = 1, m = 2) *)
+Example ex_C06_dict_read :
+  let dt := mk_dim 116 0 [10; 11] in let dr := mk_dim 114 1 [20; 21] in let dm := mk_dim 109 2 [30; 31; 32] in
+  let sub := mk_dim 115 3 [32; 30] in
+  let a := mk_farr [dt; dr; dm] (seq 100 12) in
+  let kvs := [(KLetter 109, IDim sub); (KLetter 116, ISingle 11)] in
+  wf_dict (adims a) no_asg kvs
+  /\ (exists r, getitem nat 0 a (KDict kvs) = Ok r /\ adims r = [dr; sub] /\ den nat 0 r [(114, 1); (115, 0)] = 100 + (1 * 6 + 1 * 3 + 2)).
+Proof.
+  cbv zeta. split.
+  - apply (wfd_cons _ no_asg (mk_dim 109 2 [30; 31; 32]) (IDim (mk_dim 115 3 [32; 30]))); simpl; auto.
+    + intros x [<-|[<-|[]]]; simpl; auto.
+    + intros sd E. injection E as <-. split; [simpl; intros [H|[H|[H|[]]]]; discriminate | intros d' sd' _ E'; discriminate].
+    + apply (wfd_cons _ _ (mk_dim 116 0 [10; 11]) (ISingle 11)); simpl; auto.
+      * intros sd E; discriminate.
+      * constructor.
+  - eexists. split; [vm_compute; reflexivity|]. split; vm_compute; reflexivity.
+Qed.
